@@ -892,6 +892,9 @@ class SimplicialComplex(Hypergraph):
         self.remove_simplex_id = frozen
         self.remove_simplex_ids_from = frozen
         self.clear = frozen
+        self.clear_edges = frozen
+        self.double_edge_swap = frozen
+        self.random_edge_shuffle = frozen
         self.frozen = True
 
     @property
